@@ -428,9 +428,10 @@ xdr_NC_array(XDR *xdrs, NC_array **app)
                     return FALSE;
                 }
             }
-            count  = (*app)->count;
-            type   = (*app)->type;
-            countp = &count;
+            count      = (*app)->count;
+            temp_count = count;
+            type       = (*app)->type;
+            countp     = &count;
             break;
         case XDR_DECODE:
             countp = &count;
